@@ -222,6 +222,29 @@ theorem stepStage_clock_mono (dl : Option Int) (it : Iter) (ps : PS) (st : Stage
       · simp only [Option.isNone_some, hc]; exact Int.le_refl _
   · simp only [stepStage]; split <;> exact Int.le_refl _
 
+/-- Structural fact of the model: for ANY stage order in which the barrier comes after a block `lows`,
+    everything `lows` does (stages entered, when, the clock it leaves) is the same for every
+    `consistency_time`, and stays the beginning of the final log. -/
+theorem stages_before_barrier_independent (lows rest : List Stage) (hl : Stage.barrier ∉ lows)
+    (dl dl' : Option Int) (it : Iter) :
+    runStages lows dl it (PS.start it) = runStages lows dl' it (PS.start it) ∧
+    ∃ tail, (processIn (lows ++ Stage.barrier :: rest) dl it).low
+              = (runStages lows none it (PS.start it)).low ++ tail := by
+  refine ⟨runStages_indep dl dl' it lows _ hl, ?_⟩
+  obtain ⟨tail, ht⟩ := runStages_low_prefix dl it (Stage.barrier :: rest) (runStages lows dl it (PS.start it))
+  refine ⟨tail, ?_⟩
+  show (runStages (lows ++ Stage.barrier :: rest) dl it (PS.start it)).low = _
+  rw [runStages_append, ht, runStages_indep dl none it lows _ hl]
+
+/-- … and it is false for a processor that sleeps first. -/
+theorem barrier_first_delays_witness :
+    ∃ (it : Iter) (dl : Option Int),
+      (processIn [Stage.barrier, .indexing, .watching, .spawning, .changing] dl it).low
+        ≠ (processIn [Stage.barrier, .indexing, .watching, .spawning, .changing] none it).low :=
+  ⟨{ ver := some ⟨104, false⟩, now := 110, dur := 0, pressure := false, wake := none, lag := 0, gone := false,
+     required := true, patchInit := true, patchMid := true, patched := none, tp := 423, tret := 423 },
+   some 423, by decide⟩
+
 /-! ### worker steps -/
 
 theorem arrive_cases (s : WState) (v : Option Ver) :
